@@ -88,8 +88,9 @@ def get_files_to_push(local_path, device_path):
 
     """
     local_path_is_dir = not isinstance(local_path, BytesIO) and os.path.isdir(local_path)
-    local_paths = [local_path] if not local_path_is_dir else os.listdir(local_path)
-    device_paths = [device_path] if not local_path_is_dir else [device_path + '/' + f for f in local_paths]
+    filenames = os.listdir(local_path) if local_path_is_dir else []
+    local_paths = [local_path] if not local_path_is_dir else [os.path.join(local_path, f) for f in filenames]
+    device_paths = [device_path] if not local_path_is_dir else [device_path + '/' + f for f in filenames]
 
     return local_path_is_dir, local_paths, device_paths
 
